@@ -196,3 +196,43 @@ def hasattr_assign(body, recv, attr):
         if isinstance(st, ast.Assign) and len(st.targets) == 1 and ast.unparse(st.targets[0]) == f"{recv}.{attr}":
             return True
     return False
+
+
+def local_variables_obligations(prop="C13"):
+    """TypeNode draws the composition edges of a type from `obj.local_variables` - the components the type declares itself.  FortranType.correlate binds that name to the
+    component list *before* the inherited components are put in front; from then on `self.variables` may only be re-bound to a new list, never changed in place (slice /
+    item assignment, insert / extend / append, +=): both names would see the inherited components, and every descendant would get its ancestors' composition edges."""
+    import ast
+    from harness import loader
+    from harness.core import OR, PROVED, REFUTED, UNKNOWN
+    oid = f"{prop}.S.FortranType.correlate.local_variables_keep_the_declared_components"
+    try:
+        fn = loader.find_def("ford.sourceform", "FortranType.correlate")
+    except loader.TargetMissing as e:
+        return [OR(id=oid, status=UNKNOWN, kind="S", target="ford.sourceform.FortranType.correlate", detail=str(e))]
+    binds = [n for n in ast.walk(fn) if isinstance(n, ast.Assign) and any(ast.unparse(t) == "self.local_variables" for t in n.targets)]
+    if len(binds) != 1 or ast.unparse(binds[0].value) != "self.variables":
+        return [OR(id=oid, status=UNKNOWN, kind="S", target="ford.sourceform.FortranType.correlate", detail=f"expected one `self.local_variables = self.variables`, found {[ast.unparse(b) for b in binds]}")]
+    line = binds[0].lineno
+    bad = []
+    for n in ast.walk(fn):
+        if getattr(n, "lineno", 0) <= line:
+            continue
+        if isinstance(n, (ast.Assign, ast.AugAssign, ast.Delete)):
+            tg = n.targets if isinstance(n, (ast.Assign, ast.Delete)) else [n.target]
+            for t in tg:
+                if isinstance(t, ast.Subscript) and ast.unparse(t.value) in ("self.variables", "self.local_variables"):
+                    bad.append(ast.unparse(n))
+                if isinstance(n, ast.AugAssign) and ast.unparse(t) in ("self.variables", "self.local_variables"):
+                    bad.append(ast.unparse(n))
+        if isinstance(n, ast.Call) and isinstance(n.func, ast.Attribute) and n.func.attr in ("insert", "extend", "append", "remove", "pop", "clear", "sort", "reverse") \
+                and ast.unparse(n.func.value) in ("self.variables", "self.local_variables"):
+            bad.append(ast.unparse(n))
+    r = OR(id=oid, status=REFUTED if bad else PROVED, kind="S", role="frame", backend="ast", target="ford.sourceform.FortranType.correlate",
+           desc="after `self.local_variables = self.variables` the shared list is not changed in place: the inherited components go into a new list")
+    if bad:
+        from bounded import c13
+        r.witness = {"in_place_changes": bad}
+        r.detail = "local_variables aliases the list that now also holds the inherited components"
+        r.replay = c13.search()
+    return [r]
